@@ -68,6 +68,10 @@ type tagFilter struct {
 	isEmptyValue bool
 
 	regexpPrefix string
+
+	// Set by InfluxRegrep for a regexp that matches every value: it matches the empty
+	// string and has no anchors or other empty-width assertions (eg, /.*/, /a*/, /(web|)/).
+	matchesAny bool
 }
 
 type TagFilters struct {
@@ -234,6 +238,7 @@ func (tf *tagFilter) Init(name, key, value []byte, isNegative, isRegexp bool) er
 	tf.orSuffixes = tf.orSuffixes[:0]
 	tf.isEmptyMatch = false
 	tf.isAllMatch = false
+	tf.matchesAny = false
 	tf.graphiteReverseSuffix = tf.graphiteReverseSuffix[:0]
 
 	compositeKey := kbPool.Get()
@@ -279,30 +284,101 @@ func (tf *tagFilter) Init(name, key, value []byte, isNegative, isRegexp bool) er
 	return nil
 }
 
+// InfluxRegrep prepares the filter for InfluxQL semantics, the same that
+// matchSeriesKeyTagFilter applies when pruning: a regexp is searched, unanchored, in the
+// whole (unescaped) tag value. Only a literal that the regexp anchors at the start of the
+// value narrows the range of stored values that has to be scanned.
 func (tf *tagFilter) InfluxRegrep() (regexpCacheValue, error) {
-	var expr []byte
-	prefix := tf.value
-	if tf.isRegexp {
-		prefix, expr = getRegexpPrefix(tf.value)
-		if len(expr) == 0 {
-			tf.value = append(tf.value[:0], prefix...)
-			// select /Ubuntu/ should return match value which contain Ubuntu
-			tf.reSuffixMatch = func(b []byte) bool {
-				return bytes.Contains(b, tf.value)
-			}
-			return regexpCacheValue{}, nil
-		}
-	}
-	tf.prefix = marshalTagValueNoTrailingTagSeparator(tf.prefix, prefix)
 	if !tf.isRegexp {
 		// tf contains plain value without regexp.
-		// Add empty orSuffix in order to trigger fast path for orSuffixes
-		// during the search for matching metricIDs.
-		tf.isEmptyMatch = len(prefix) == 0
+		tf.prefix = marshalTagValueNoTrailingTagSeparator(tf.prefix, tf.value)
+		tf.isEmptyMatch = len(tf.value) == 0
 		return regexpCacheValue{}, nil
 	}
-	rcv, err := getRegexpFromCache(expr)
-	return rcv, err
+
+	re, err := regexp.Compile(string(tf.value))
+	if err != nil {
+		// Cannot compile the regexp: treat it as a literal that the value must contain.
+		literal := append([]byte{}, tf.value...)
+		tf.reSuffixMatch = func(b []byte) bool {
+			return bytes.Contains(unescapeStoredTagValue(nil, b), literal)
+		}
+		return regexpCacheValue{}, nil
+	}
+
+	if sre, err := syntax.Parse(string(tf.value), syntax.Perl); err == nil {
+		tf.matchesAny = re.MatchString("") && !hasEmptyWidthOp(sre)
+	}
+	valuePrefix := anchoredLiteralPrefix(string(tf.value))
+	if len(valuePrefix) > 0 {
+		tf.prefix = marshalTagValueNoTrailingTagSeparator(tf.prefix, valuePrefix)
+	}
+	var buf []byte
+	tf.reSuffixMatch = func(b []byte) bool {
+		// b is the stored (escaped) rest of the value after valuePrefix
+		if len(valuePrefix) == 0 && bytes.IndexByte(b, escapeChar) < 0 {
+			return re.Match(b)
+		}
+		buf = append(buf[:0], valuePrefix...)
+		buf = unescapeStoredTagValue(buf, b)
+		return re.Match(buf)
+	}
+	return regexpCacheValue{}, nil
+}
+
+// unescapeStoredTagValue appends to dst the tag value whose stored form
+// (see marshalTagValue, without the trailing separator) is src.
+func unescapeStoredTagValue(dst, src []byte) []byte {
+	for len(src) > 0 {
+		n := bytes.IndexByte(src, escapeChar)
+		if n < 0 || n+1 >= len(src) {
+			return append(dst, src...)
+		}
+		dst = append(dst, src[:n]...)
+		switch src[n+1] {
+		case '0':
+			dst = append(dst, escapeChar)
+		case '1':
+			dst = append(dst, tagSeparatorChar)
+		case '2':
+			dst = append(dst, kvSeparatorChar)
+		default:
+			dst = append(dst, src[n], src[n+1])
+		}
+		src = src[n+2:]
+	}
+	return dst
+}
+
+func hasEmptyWidthOp(sre *syntax.Regexp) bool {
+	switch sre.Op {
+	case syntax.OpBeginLine, syntax.OpEndLine, syntax.OpBeginText, syntax.OpEndText,
+		syntax.OpWordBoundary, syntax.OpNoWordBoundary:
+		return true
+	}
+	for _, sub := range sre.Sub {
+		if hasEmptyWidthOp(sub) {
+			return true
+		}
+	}
+	return false
+}
+
+// anchoredLiteralPrefix returns the literal every value matching expr must start
+// with, if expr has the form ^literal... (nil otherwise).
+func anchoredLiteralPrefix(expr string) []byte {
+	sre, err := syntax.Parse(expr, syntax.Perl)
+	if err != nil {
+		return nil
+	}
+	sre = sre.Simplify()
+	if sre.Op != syntax.OpConcat || len(sre.Sub) < 2 || sre.Sub[0].Op != syntax.OpBeginText {
+		return nil
+	}
+	if lit := sre.Sub[1]; lit.Op == syntax.OpLiteral && lit.Flags&syntax.FoldCase == 0 {
+		return []byte(string(lit.Rune))
+	}
+	return nil
 }
 
 func (tf *tagFilter) OpGeminiRegrep() (*regexpCacheValue, error) {
